@@ -34,7 +34,7 @@ different instance of BVType.
 import pysmt
 
 from pysmt.exceptions import PysmtValueError, PysmtModeError
-from pysmt.utils import assert_not_none
+from pysmt.utils import assert_not_none, quote
 
 from typing import Any, Callable, Dict, Iterable, List, Optional, Sequence, Tuple, Union, cast
 
@@ -117,11 +117,16 @@ class PySMTType(object):
 
     def as_smtlib(self, funstyle: bool=True) -> str:
         name = self.name
+        basename = self.basename
+        if self.custom_type:
+            # The name of a declared sort is a symbol like any other
+            basename = quote(assert_not_none(self.basename))
+            name = basename
         if self.args:
-            assert self.basename is not None
+            assert basename is not None
             args = " ".join([arg.as_smtlib(funstyle=False) \
                              for arg in self.args])
-            name = "(" + self.basename + " " + args + ")"
+            name = "(" + basename + " " + args + ")"
         if funstyle:
             return "() %s" % name
         else:
